@@ -18,10 +18,10 @@ func (C08) Level() string { return "exploration" }
 func (C08) Rule() string {
 	return "each run = one seeded history on a small label volume (block size 16 or 32, 1-12 blocks, possibly negative block coordinates): block-aligned ingests of generated supervoxel layouts " +
 		"(Voronoi cells, background, supervoxels spanning blocks or confined to a sub-block, large label values), mutating overwrites, merges, cleaves, supervoxel splits (single voxel, half, a whole block's part, scattered), " +
-		"renumberings, next-label requests, interleaved with commit / new version / branch and clean or kill restarts; every operation is settled (barrier) before the next. " +
+		"renumberings, next-label and POST maxlabel requests, interleaved with commit / new version / branch and clean or kill restarts; every operation is settled (barrier) before the next. " +
 		"After operations and at the end, on sampled and finally ALL versions, every read endpoint (raw and blocks mapped and supervoxels=true, size, sizes, supervoxels, supervoxel-sizes, index, sparsevol rles/srles, " +
 		"sparsevol-coarse, sparsevol-size, label, labels, mapping, mappings, listlabels, existing-labels, maxlabel) is compared with a dense-array + supervoxel->body-map reference model " +
-		"(conservation follows from voxel-exact equality). non-trivial = at least two kinds of proofreading operations and two versions; distinct = distinct (steps, schedule, faults) hash"
+		"(conservation follows from voxel-exact equality); GET history/<label> streams the versions' mutation log between mutations; across every restart the maxlabel answer of every version must not change (reported as C03). non-trivial = at least two kinds of proofreading operations and two versions; distinct = distinct (steps, schedule, faults) hash"
 }
 func (C08) Assumptions() []string {
 	return append([]string{"version DAGs of label histories are trees (no merges of versions)", "the body 'split' endpoint (disabled by default) is not exercised; POST blocks/ingest-supervoxels/indices/mappings ingestion is not yet exercised"}, commonAssumptions...)
@@ -108,9 +108,11 @@ func GenLabelHistory(r *rand.Rand, nsteps int, maxDown int, pRestart float64, ex
 			steps = append(steps, drv.Op{Op: "splitsv", V: v, N: seed()})
 		case y < 83:
 			steps = append(steps, drv.Op{Op: "renumber", V: v, N: seed()})
-		case y < 87:
+		case y < 86:
 			steps = append(steps, drv.Op{Op: "nextlabel", V: v, N: seed()})
-		case y < 93:
+		case y < 88:
+			steps = append(steps, drv.Op{Op: "setmax", V: v, N: seed()})
+		case y < 94:
 			d.Nodes[v].Locked = true
 			steps = append(steps, drv.Op{Op: "commit", V: v})
 		default:
